@@ -72,6 +72,10 @@ def check(case, r):
     """returns a list of anomalies: {'class':..., 'detail':...}"""
     out = _check(case, r)
     mem = any(e[0] == 'ev' and e[1] == 'mem_write' for e in r['log'])
+    # a thread that dies on `None` where a link object was expected: check-then-use on Crazyflie.link
+    toctou = [d for d in r['dead'] if "'NoneType' object has no attribute" in d[1]]
+    if toctou:
+        return [{'class': 'thread_dies_on_link_check_then_use', 'detail': {'dead': r['dead'], 'results': r['results']}}]
     if mem:
         for a in out:
             if a['class'] in ('link_error_from_sending_thread_wedges', 'hang_or_dead_thread') and \
